@@ -51,6 +51,7 @@ const (
 	faultNone faultKind = iota
 	faultErr
 	faultDeadline
+	fault404
 )
 
 // Client is the per-client view of a Store; it carries the client identity and
@@ -161,6 +162,11 @@ func (c *Client) before(ctx context.Context, op, key string, mutating bool) erro
 		return awserr.New("RequestError", "injected transport error", nil)
 	case faultDeadline:
 		return awserr.New(request.CanceledErrorCode, "request context canceled", context.DeadlineExceeded)
+	case fault404:
+		// a well-formed "no such object" answer (an object lost or vacuumed elsewhere); only reads can get it
+		if op == "GET" {
+			return awserr.New(s3.ErrCodeNoSuchKey, "The specified key does not exist.", nil)
+		}
 	}
 	if err := ctx.Err(); err != nil {
 		return awserr.New(request.CanceledErrorCode, "request context canceled", err)
